@@ -454,3 +454,92 @@ SUBS = [
     Sub("transform_ok", sub_transform_ok, st_tf, 500, 20000, nontrivial=lambda c: True),
     Sub("transform_bad", sub_transform_bad, st_tf, 500, 20000, nontrivial=lambda c: True),
 ]
+
+
+# ---- byte-level differential fuzzing (atheris / libFuzzer) -------------------------------------------
+
+import binascii
+import glob
+import shutil
+import subprocess
+import sys
+
+from vf.core import Report
+
+
+def sub_fuzz_case(case):
+    """replay of one fuzz input (hex) through the differential target"""
+    from vf.fuzz import c07_target
+    try:
+        return c07_target.check_bytes(binascii.unhexlify(case["hex"]))
+    except c07_target.Disagreement as dgr:
+        raise Mismatch(dgr.msg, **dgr.tags)
+
+
+FUZZ_CASE = Sub("fuzz_case", sub_fuzz_case, None, 0, 0)
+
+
+def custom_fuzz(ctx):
+    from vf.runner import execute_case, VERIF, REPO
+    rep = Report()
+    try:
+        import atheris  # noqa
+    except Exception:
+        rep.notes.append("atheris not importable: fuzz sub-check skipped")
+        rep.count_many("fuzz_readers", 0, 0, None, {"skipped": "atheris missing"})
+        return rep
+    runs = 25000 if ctx["tier"] == "quick" else 400000
+    work = tempfile.mkdtemp(prefix="c07fz_", dir=os.getcwd())
+    corpus = os.path.join(work, "corpus")
+    art = os.path.join(work, "art")
+    os.makedirs(corpus)
+    os.makedirs(art)
+    seeds = os.path.join(VERIF, "corpus", "C07", "fuzz")
+    use_seeds = (ctx["shard"] % 2 == 0)  # odd shards start from the empty corpus
+    cmd = [sys.executable, "-B", "-W", "ignore", "-m", "vf.fuzz.c07_target", "-runs=%d" % runs, "-seed=%d" % (1 + ctx["seed"] % (2 ** 31 - 2)),
+           "-artifact_prefix=" + art + "/", "-max_len=768", "-print_final_stats=1",
+           "-dict=" + os.path.join(VERIF, "vf", "fuzz", "c07.dict"), corpus] + ([seeds] if use_seeds and os.path.isdir(seeds) else [])
+    env = dict(os.environ, PYTHONPATH=os.pathsep.join([REPO, VERIF, os.path.join(VERIF, ".deps")]))
+    r = subprocess.run(cmd, cwd=work, env=env, stdout=subprocess.PIPE, stderr=subprocess.STDOUT, text=True)
+    done = 0
+    for ln in r.stdout.splitlines():
+        if ln.startswith("stat::number_of_executed_units:"):
+            done = int(ln.split(":")[-1])
+        elif ln.startswith("Done ") and " runs" in ln:
+            done = max(done, int(ln.split()[1]))
+    crashes = sorted(glob.glob(os.path.join(art, "crash-*")))
+    # classify what the campaign produced (new corpus entries = inputs with new coverage)
+    from vf.fuzz import c07_target
+    kinds = {}
+    nt = 0
+    sample = None
+    for f in sorted(glob.glob(os.path.join(corpus, "*")))[:4000]:
+        data = open(f, "rb").read()
+        try:
+            k = c07_target.check_bytes(data)
+        except c07_target.Disagreement:
+            k = "disagreement"
+        kinds[k] = kinds.get(k, 0) + 1
+        if k in ("ok", "bad"):
+            nt += 1
+            if sample is None and len(data) < 200:
+                sample = {"hex": binascii.hexlify(data).decode(), "classification": k}
+    for f in crashes:
+        case = {"hex": binascii.hexlify(open(f, "rb").read()).decode()}
+        v = execute_case(PROPERTY, FUZZ_CASE, case, rep, counting=False)
+        if v is not None:
+            rep.violations.append(v)
+            break
+        else:
+            rep.notes.append("fuzz artifact does not reproduce in-process: %s" % os.path.basename(f))
+    if r.returncode != 0 and not crashes:
+        rep.harness_errors.append("atheris run failed (exit %d): %s" % (r.returncode, r.stdout[-800:]))
+    rep.count_many("fuzz_readers", done, nt, None, sample or {"corpus_entries": sum(kinds.values())})
+    for k, c in kinds.items():
+        rep.classes["fuzz_readers>new_coverage_inputs:%s" % k] = c
+    shutil.rmtree(work, ignore_errors=True)
+    return rep
+
+
+SUBS.append(FUZZ_CASE)
+SUBS.append(Sub("fuzz_readers", kind="custom", custom=custom_fuzz, n_quick=1, n_thorough=1, shards_quick=4, shards_thorough=16))
